@@ -244,6 +244,10 @@ class ContractMixin:
             for n in names:
                 self.note_class(n)
             return S_bool(z3.Or(*[isa(box(x, st), n) for n in names]))
+        if name == "final":
+            # ghost: the value of a local variable of the kernel at the return point (None when unbound on this path)
+            fe = st.notes.get("final_env") or {}
+            return fe.get(node.args[0].value) or S_none()
         if name == "appended":
             # ghost: what the kernel appended to an unmodelled container (by receiver text)
             g = st.notes.get("ghost_appends") or {}
